@@ -17,10 +17,11 @@ const (
 	zzLComputeInc
 	zzLComputeIfAbsent
 	zzLInvalidate
+	zzLComputeIfPresentInc
 	zzLN
 )
 
-var zzLNames = []string{"Set", "SetIfAbsent", "GetIfPresent", "ComputeInc", "ComputeIfAbsent", "Invalidate"}
+var zzLNames = []string{"Set", "SetIfAbsent", "GetIfPresent", "ComputeInc", "ComputeIfAbsent", "Invalidate", "ComputeIfPresentInc"}
 
 type zzLOp struct {
 	kind, key, arg int
@@ -72,6 +73,12 @@ func zzLApply(m *[3]int, has *[3]bool, o *zzLOp) (int, bool) {
 			return v, true
 		}
 		return 0, false
+	case zzLComputeIfPresentInc:
+		if has[k] {
+			m[k] = m[k] + 1
+			return m[k], true
+		}
+		return 0, false
 	}
 	return 0, false
 }
@@ -100,6 +107,11 @@ func zzLRun(c *Cache[int, int], clk *zzTick, o *zzLOp) {
 		})
 	case zzLInvalidate:
 		o.rv, o.rok = c.Invalidate(o.key)
+	case zzLComputeIfPresentInc:
+		o.rv, o.rok = c.ComputeIfPresent(o.key, func(old int) (int, ComputeOp) {
+			o.cbCalls++
+			return old + 1, WriteOp
+		})
 	}
 	o.t1 = clk.now()
 }
@@ -199,8 +211,8 @@ func ZZ_C02_Linearizable() {
 		switch o.kind {
 		case zzLComputeInc:
 			vAssert(o.cbCalls == 1, "c02.compute_callback_exactly_once")
-		case zzLComputeIfAbsent:
-			vAssert(o.cbCalls <= 1, "c02.computeifabsent_callback_at_most_once")
+		case zzLComputeIfAbsent, zzLComputeIfPresentInc:
+			vAssert(o.cbCalls <= 1, "c02.conditional_compute_callback_at_most_once")
 		}
 	}
 	vAssert(zzLinearizable(ops, init, initHas, final, finalHas), "c02.history_is_linearizable")
